@@ -14,11 +14,11 @@ CHECKS = {
    note="Out-of-memory deviations of the process-shared cache (dropped store, clear on bad_alloc) are not driven; memory release is checked through refill capacity, not by inspecting the allocator of the live cache.",
    ref="3/C08"),
 }
- "C09": dict(
+CHECKS["C09"] = dict(
    technique="TLA+ model of the lock protocol (all interleavings, TLC, safety+liveness, seeded-bug non-vacuity) + trace validation of multi-threaded runs using in-lock hook events ordered by a global sequence number",
    text="TLC explores every interleaving of 2x2 / 3x1 / 2x3 cache operations at lock-step granularity (Conc.tla): reader/writer exclusion, LRU-list exclusion, linearization point inside the call, returned value = value at the linearization point, no torn value, termination under weak fairness. Real 2..8-thread runs are recorded through hooks inside the critical sections and accepted only if lock events respect the exclusion rules and the Lin events, in sequence order, form a behaviour of the sequential cache spec with every return value equal to its own Lin result - i.e. each observed history is linearizable with real-time-consistent linearization points.",
    note="Hook placement is trusted (events emitted while the lock is held); unhooked accesses are only covered through their effects and the optional TSan run (thorough tier, aid only). Clock constant during concurrent rounds.",
-   ref="3/C09"),
+   ref="3/C09")
 
 NOT_APPLICABLE = {
 }
